@@ -243,8 +243,10 @@ pub struct World {
 
 const DIM_NAMES: &[&str] = &["D", "H", "E", "S", "Dept"];
 const DIM_NAMES_UNI: &[&str] = &["D", "H", "E", "Sécu", "部門"];
-const ATTR_NAMES: &[&str] = &["A", "B", "C", "L", "T", "N", "X", "Y", "Low Sec", "Q", "R", "M"];
-const ATTR_NAMES_UNI: &[&str] = &["A", "B", "C", "L", "T", "N", "é", "日本", "Low Sec", "Q", "ß", "M"];
+/// 131 bytes: the length prefix of this name takes two LEB128 bytes.
+const LONG: &str = "Long-0123456789012345678901234567890123456789012345678901234567890123456789012345678901234567890123456789012345678901234567890123456";
+const ATTR_NAMES: &[&str] = &["A", "B", "C", "L", "T", "N", "X", "Y", "Low Sec", "Q", "R", "M", LONG];
+const ATTR_NAMES_UNI: &[&str] = &["A", "B", "C", "L", "T", "N", "é", "日本", "Low Sec", "Q", "ß", "M", LONG];
 
 impl World {
     pub fn new(p: Profile, replay: Value) -> Option<Self> {
